@@ -2,6 +2,7 @@ import Canopy.Proof.Key
 import Canopy.Gen.Keys
 import Canopy.Proof.SignBytes
 import Canopy.Gen.Proto
+import Canopy.Model.ProtoCrit
 /-!
 # C19 (a) — composite store keys never collide and never fall into each other's prefix range
 
@@ -360,6 +361,53 @@ theorem election_wellformed_has_vrf (m : MsgC) (k : Bytes) (h : m.electionWellFo
   | some g =>
     simp only [hv, Bool.and_eq_true, beq_iff_eq] at h
     exact ⟨g, rfl, h.2, h.1.1, h.1.2⟩
+
+/-! ### unknown fields at every nesting position of the critical messages
+
+`ProtoCrit.checkCritical` is the generic, schema-directed model of `lib.Unmarshal` for `Block`,
+`Transaction`, `QuorumCertificate` over the regenerated schemas; the driver compares it with the real
+decoder on a reflection-generated corpus (unknown field / wrong wire type / group injected at every
+message position, `protoMaxListLen` ± at every list position). -/
+
+/-- the walker reaches the elements of repeated message fields (the list-length test does not return
+before the recursion, the list case recurses) and uses the modelled list bound -/
+theorem walker_src : Gen.Proto.walkerInspectsListElements = true ∧
+    Gen.Proto.protoMaxListLen = ProtoCrit.protoMaxListLen ∧ Gen.Proto.protoMaxRecursion = 32 := by decide
+
+/-- the schemas reachable from the three critical messages: the set is closed under message-typed
+fields and contains no `map` / `oneof` field (the constructs the generic model does not cover) -/
+def criticalSchemas : List String :=
+  ["Block", "BlockHeader", "VDF", "QuorumCertificate", "View", "CertificateResult", "AggregateSignature",
+   "RewardRecipients", "PaymentPercents", "SlashRecipients", "DoubleSigner", "Orders", "LockOrder", "Checkpoint",
+   "DexBatch", "DexLimitOrder", "DexLiquidityDeposit", "DexLiquidityWithdraw", "PoolPoints", "Transaction", "Signature"]
+
+theorem critical_schemas_closed :
+    criticalSchemas.all (fun n => (Gen.Proto.schema n).all fun d =>
+      d.2.2.2 != "map" && d.2.2.2 != "oneof" &&
+      (match ProtoCrit.kindOf Gen.Proto.messages Gen.Proto.enums d.2.2.1 with
+       | .msg t => t == "google.protobuf.Any" || criticalSchemas.contains t
+       | .unsupported => false
+       | _ => true)) = true := by decide +kernel
+
+/-- an unknown field inside an ELEMENT of a repeated message field
+(`results.reward_recipients.payment_percents[0]`) refuses the certificate; so does an unknown field
+in an element of a list inside a list element position, a group, and a declared number with another
+wire type; the same bytes without the extra field are accepted -/
+theorem unknown_in_list_element_rejected :
+    let S := Gen.Proto.messages
+    let E := Gen.Proto.enums
+    ProtoCrit.checkCritical S E "QuorumCertificate" [0x12, 0x07, 0x0a, 0x05, 0x0a, 0x03, 0x0a, 0x01, 0x01] = .ok ∧
+    ProtoCrit.checkCritical S E "QuorumCertificate" [0x12, 0x0a, 0x0a, 0x08, 0x0a, 0x06, 0x0a, 0x01, 0x01, 0xc0, 0x3e, 0x01] = .walk ∧
+    ProtoCrit.checkCritical S E "QuorumCertificate" [0x12, 0x0b, 0x0a, 0x09, 0x0a, 0x07, 0x0a, 0x01, 0x01, 0xbb, 0x3e, 0xbc, 0x3e] = .walk ∧
+    ProtoCrit.checkCritical S E "QuorumCertificate" [0x12, 0x09, 0x0a, 0x07, 0x0a, 0x05, 0x0a, 0x01, 0x01, 0x08, 0x01] = .walk ∧
+    ProtoCrit.checkCritical S E "QuorumCertificate" [0x12, 0x0a, 0x12, 0x08, 0x0a, 0x06, 0x0a, 0x01, 0x01, 0xc0, 0x3e, 0x01] = .walk := by
+  decide +kernel
+
+/-- a field number the schema does not declare is flagged at whatever level it occurs -/
+theorem undeclared_number_flagged (S : ProtoCrit.Schemas) (E : List String) (rec : String → Bytes → Option ProtoCrit.Flags)
+    (decls : List ProtoCrit.FieldDecl) (f : Field) (h : decls.find? (·.1 == f.num) = none) :
+    ProtoCrit.checkField S E rec decls f = some (⟨true, false, false⟩, 0) := by
+  simp [ProtoCrit.checkField, h]
 
 /-- non-vacuity: the honest transaction with one unknown field appended is refused, a group wire type
 is refused, a truncated varint is refused — and the untouched bytes are accepted -/
